@@ -136,6 +136,8 @@ func crossPlan(rp roundPlan) []logicalSpec {
 	}
 	tzs := []string{"", "", "TZ=UTC", "CRON_TZ=Asia/Tokyo", "TZ=Etc/GMT+5", "CRON_TZ=America/New_York"}
 	var out []logicalSpec
+	named := 0
+	defer func() { rec.Count("cronparsers.specs_with_names", named) }()
 	for _, n := range []int{5, 6, 2, 4, 5} {
 		l := logicalSpec{tz: tzs[rng.Intn(len(tzs))]}
 		numeric := 0
@@ -146,6 +148,14 @@ func crossPlan(rp roundPlan) []logicalSpec {
 				numeric++
 			}
 			l.fields = append(l.fields, f)
+		}
+		if n >= 5 && rng.Bool() {
+			// names where the standard layout has month and day of week (other parsers
+			// read these positions differently and must refuse or accept as they do alone)
+			l.fields[n-2] = pipelineSpelling(rng, monthNames[rng.Intn(12)])
+			lo := rng.Intn(7)
+			l.fields[n-1] = pipelineSpelling(rng, dowNames[lo]) + "-" + pipelineSpelling(rng, dowNames[rng.Range(lo, 6)])
+			named++
 		}
 		out = append(out, l)
 	}
